@@ -17,4 +17,25 @@ CHECKS = {
                         "dynamic half: deep snapshots on fixtures and generated documents only"],
         "proved_vs_tested": "proved: frame theorem for every execution/interleaving, instantiated by the regenerated (empty) AST-write table; tested: deep before/after snapshots through all four API paths and the cache",
     },
+    "C13": {
+        "lean_modules": ["Gomjml.Props.C13"],
+        "audit": ["Gomjml/Audit/C13.lean"],
+        "level": "proof",
+        "trusted": ["hash/maphash is a parameter (an arbitrary function Doc -> Key); time is an integer clock; sync.Map modelled as a function",
+                    "verif hooks: mjml/verif_hooks.go (cache size, expiry shift as simulated time, hash override, yield events)"],
+        "assumptions": ["C13_transparent assumes the hash is injective on the documents of the history; without it the statement is false (kernel-checked counterexample, recorded finding C13-F1)",
+                        "rendering from an AST is a pure function of the AST (C16)",
+                        "correspondence: finite histories over a 4-document alphabet, each in a fresh process"],
+        "proved_vs_tested": "proved: refinement of the cache machine (hits, misses, expiry, sweeps, stop/restart, setters) to the stateless compiler for every history, invariant for every reachable state; tested: model vs implementation on exhaustive short and random long histories (outcome, parser calls, size, lifecycle)",
+    },
+    "C14": {
+        "lean_modules": ["Gomjml.Props.C14"],
+        "audit": ["Gomjml/Audit/C14.lean"],
+        "level": "proof",
+        "trusted": ["time is an integer clock; a wall clock cannot be stopped exactly at expiry, so the strictness of the two comparisons is tied by the regenerated fact table C14_time_comparisons rather than by execution",
+                    "verif hooks: mjml/verif_hooks.go"],
+        "assumptions": ["the cleanup goroutine's sweep is atomic with respect to lookups in the Model (sync.Map.Range is not; only expired entries are removed either way)",
+                        "tiny positive TTLs (1 ns … 1 ms) race the wall clock: only crash-freedom, result equality and effective configuration are compared for them"],
+        "proved_vs_tested": "proved: hit changes nothing and does not parse; at/after expiry exactly one re-parse and a fresh stamp; expires = stored + ttl in every reachable state; sweep post-condition; ticker argument positive for every configuration; once-only setter laws; tested: same histories as C13 plus the TTL×interval boundary matrix in both setter orders, each in a fresh process",
+    },
 }
